@@ -11,3 +11,59 @@ package alt
 //@ unit altdiff
 
 //@ sweep [C19] ^(diff|Match|Diff|Compare|asInt|asFloat|ignoreIndex|ignoreKey)$
+
+// What diff reports for a scalar on the left (C19): a difference is appended exactly when the right side is not the
+// same scalar (nil against nil, bool against an equal bool, string against an equal string); nothing else is appended.
+// The entry state of a clause is arbitrary (d0 differences collected so far).
+//@ func diff
+//@   opt sweep = true
+//@   opt props = C19
+//@   opt whole = true
+//@   modifies everything
+//@   region dNil = case nil
+//@     let d0 = len(diffs)
+//@     assert [C19 nil] (len(diffs) == d0) == isnil(v1)
+//@     assert [C19 nil] len(diffs) == d0 || len(diffs) == d0 + 1
+//@   region dBool = case bool
+//@     let d0 = len(diffs)
+//@     assert [C19 bool] (len(diffs) == d0) == (isbool(v1) && anybool(v1) == t0)
+//@     assert [C19 bool] len(diffs) == d0 || len(diffs) == d0 + 1
+//@   region dInt = case int, int8, int16, int32, int64, uint, uint8, uint16, uint32, uint64
+//@     let d0 = len(diffs)
+//@     assert [C19 int] SIntKind(v0) && SIntKind(v1) ==> (len(diffs) == d0) == (anyint(v0) == anyint(v1))
+//@     assert [C19 int] !NumKind(v1) ==> len(diffs) == d0 + 1
+//@     assert [C19 int] len(diffs) == d0 || len(diffs) == d0 + 1
+// Arrays: without ignore paths, arrays of different lengths always yield at least one difference, and differences are only
+// ever added to the list.
+//@   region dSlice = case []any
+//@     let d0 = len(diffs)
+//@     assert [C19 slice-len] len(ignores) == 0 && ok && len(t0) != len(t1) ==> len(diffs) > d0
+//@     assert [C19 slice-mono] len(diffs) >= d0
+//@     loop 0
+//@       invariant [C19 slice-mono] len(diffs) == d0
+//@     loop 1
+//@       invariant [C19 slice-mono] len(diffs) >= d0 && ok
+//@     loop 2
+//@       invariant [C19 slice-mono] len(diffs) >= d0 && ok
+//@   region dString = case string
+//@     let d0 = len(diffs)
+//@     assert [C19 string] (len(diffs) == d0) == (isstring(v1) && anystr(v1) == t0)
+//@     assert [C19 string] len(diffs) == d0 || len(diffs) == d0 + 1
+
+// Integers compare by value whatever their width (C19 "equal up to numeric width"): asInt returns the value of every
+// signed kind and of the unsigned kinds up to 32 bits unchanged.
+//@ pred SIntKind(x) = typeis(x, int64) || typeis(x, int) || typeis(x, int8) || typeis(x, int16) || typeis(x, int32)
+//@     || typeis(x, uint8) || typeis(x, uint16) || typeis(x, uint32) || typeis(x, gen.Int)
+//@ pred NumKind(x) = SIntKind(x) || typeis(x, uint) || typeis(x, uint64) || typeis(x, float32) || typeis(x, float64) || typeis(x, gen.Float)
+//@ func asInt
+//@   opt sweep = true
+//@   opt props = C19
+//@   modifies everything
+//@   ensures [C19 asint] SIntKind(v) ==> ok && i == anyint(v)
+//@   ensures [C19 asint] !NumKind(v) ==> !ok
+
+//@ func ignoreIndex
+//@   opt sweep = true
+//@   opt props = C19
+//@   modifies everything
+//@   ensures [C19 noignore] len(ignores) == 0 ==> !result
